@@ -426,12 +426,20 @@ R_GROUPS = [(r"(\d+)", lambda rng: _digits(rng)), (r"([a-z]+)", lambda rng: _wor
             (r"(.*)", lambda rng: rng.choice(["", "t", "u/v", "w z"]))]
 
 
-def gen_site(rng, depth, ids, keyn):
+KW_MOUNTS = [  # ancestor mount templates that consume keyword parameters: (template, regex, select, keyword)
+    ("/{lang}/%s{1}", "/([a-z]*)/%s(/.*)", 2, "lang"),
+    ("/%s-{v}{1}", "/%s-([a-z0-9]*)(/.*)", 2, "v"),
+    ("/%s{1}/{lang}", "/%s(/.*)/([a-z]*)", 1, "lang"),
+]
+
+
+def gen_site(rng, depth, ids, keyn, chain=()):
     """application tree with handlers AND mapper entries that correspond.
-    returns (words, entries[(pos, key, [param samplers], handler id)])"""
+    returns (words, entries[dict(pos, key, tpl, samplers, hid, kind, haslang, chain)]);
+    chain = the mounts from the root down to the entry's application: dict(name, tpl, obs)"""
     items, entries = [], []
     nk = 0
-    order = ["h"] * rng.randrange(1, 4) + (["c"] * rng.randrange(1, 3) if depth > 1 else []) + (["noise"] if rng.random() < 0.5 else [])
+    order = ["h"] * rng.randrange(1, 4) + (["c"] * rng.randrange(1, 3) if depth > 1 else []) + (["noise"] if rng.random() < 0.4 else [])
     rng.shuffle(order)
     for what in order:
         if what == "h":
@@ -447,32 +455,67 @@ def gen_site(rng, depth, ids, keyn):
             haslang = rng.random() < 0.3
             ng = ar
             if haslang:          # keyword substitution: {lang} comes from set_value or from a ";lang" keyword parameter
-                rxp += "/([a-z]+)"
+                rxp += "/([a-z]*)"
                 tpl += "/{lang}"
                 ng += 1
             kind = "h0" if ng == 0 else "hN:" + ",".join(str(i + 1) for i in range(ng))
             if rng.random() < 0.25 and ng > 0:
                 kind = "rh"
             items += ["L", str(hid), retok(rxp), "_", kind, "U", hx(key), hx(tpl)]
-            entries.append(([], key, [g[1] for g in gs], hid, kind, haslang))
+            entries.append(dict(pos=[], key=key, tpl=tpl, samplers=[g[1] for g in gs], hid=hid, kind=kind, haslang=haslang, chain=list(chain)))
         elif what == "c":
             name = "c%d" % keyn.next()
-            cw, ce = gen_site(rng, depth - 1, ids, keyn)
             style = rng.random()
-            if style < 0.6:
+            obs = None
+            if style < 0.4:
                 rxp, sel, tpl = "/%s(/.*)" % name, 1, "/%s{1}" % name
-            elif style < 0.8:
+            elif style < 0.5:
                 rxp, sel, tpl = "/%s/(\\d+)(/.*)" % name, 2, "/%s/5{1}" % name
-            else:
+            elif style < 0.6:
                 rxp, sel, tpl = "/{0}(.*)".format(name), 1, "/{0}{{1}}".format(name)
+            else:
+                # the ancestor's mount template itself contains a keyword placeholder; a generic handler that always declines
+                # (group -1 is the empty string) sits in front of the mount and reports the groups of the ancestor's pattern
+                t, r, sel, kw = rng.choice(KW_MOUNTS)
+                tpl, rxp = t % name, r % name
+                if rng.random() < 0.8:
+                    obs = ids.next()
+                    items += ["L", str(obs), retok(rxp), "_", "g:-1:-"]
+            link = dict(name=name, tpl=tpl, obs=obs, sel=sel)
+            cw, ce = gen_site(rng, depth - 1, ids, keyn, tuple(chain) + (link,))
             items += ["C", retok(rxp), str(sel), hx(name), hx(tpl)] + cw
-            for pos, key, ps, hid, kind, hl in ce:
-                entries.append(([nk] + pos, key, ps, hid, kind, hl))
+            for e in ce:
+                e["pos"] = [nk] + e["pos"]
+                entries.append(e)
             nk += 1
         else:
             # a sibling whose language may overlap the others (first-match matters)
             items += ["L", str(ids.next()), retok(rng.choice([r"/k\d+", r"/c\d+/x", r"/(.*)/zz", r"/k1/(.*)"])), "_", "rh"]
     return ["{"] + items + ["}"], entries
+
+
+def tpl_inst(tpl, params, kv):
+    """reference instantiation of a mapper template (what the URL mapper is supposed to produce)"""
+    def rep(m):
+        k = m.group(1)
+        if k.isdigit():
+            return params[int(k) - 1]
+        return kv.get(k, "")
+    return re.sub(r"\{([^{}]+)\}", rep, tpl)
+
+
+def rel_key(rng, frm_names, to_names, key):
+    """a key that addresses entry `key` of the mapper at `to_names` from the mapper at `frm_names`"""
+    if rng.random() < 0.35:
+        return "/" + "/".join(to_names + [key])
+    cp = 0
+    while cp < len(frm_names) and cp < len(to_names) and frm_names[cp] == to_names[cp]:
+        cp += 1
+    segs = [".."] * (len(frm_names) - cp) + to_names[cp:] + [key]
+    k = "/".join(segs)
+    if len(segs) == 1 and rng.random() < 0.3:
+        k = "./" + k
+    return k
 
 
 def gen_R(rng, n, out, expect):
@@ -482,32 +525,51 @@ def gen_R(rng, n, out, expect):
         if not entries:
             continue
         root = rng.choice(["", "/root", "/s.cgi"])
-        for _ in range(4):
-            pos, key, ps, hid, kind, haslang = rng.choice(entries)
-            params = [p(rng) for p in ps]
-            frm = list(rng.choice(entries)[0]) if rng.random() < 0.5 else pos
-            # address the entry from mapper `frm` with an absolute key built from the child names on the way
-            names = names_on_path(tw, pos)
-            if frm == pos:
-                k = key if rng.random() < 0.6 else "./" + key
-            else:
-                k = "/" + "/".join(names + [key])
-            helpers = []
-            want = list(params)
-            if haslang:
-                helpers = [("lang", "en")] if rng.random() < 0.8 else []
-                if rng.random() < 0.5:       # keyword parameter overrides the helper value
-                    k += ";lang"
-                    params = ["he"] + params
-                    want = want + ["he"]
-                else:
-                    want = want + ["en" if helpers else ""]
+        for _ in range(5):
+            e = rng.choice(entries)
+            pos = e["pos"]
+            params = [p(rng) for p in e["samplers"]]
+            frm_e = rng.choice(entries) if rng.random() < 0.6 else e
+            frm = frm_e["pos"]
+            k = rel_key(rng, [m["name"] for m in frm_e["chain"]], [m["name"] for m in e["chain"]], e["key"])
+            # keyword placeholders on the way: the entry's own template and every ancestor's mount template
+            used = set(re.findall(r"\{([a-z]+)\}", e["tpl"] + "".join(m["tpl"] for m in e["chain"])))
+            helpers = [(kw, {"lang": "en", "v": "1"}[kw]) for kw in sorted(used) if rng.random() < 0.75]
+            kv = dict(helpers)
+            kws = [kw for kw in sorted(used) if rng.random() < 0.6]
+            if rng.random() < 0.1:
+                kws.append(rng.choice(["lang", "v", "zz"]))
+            rng.shuffle(kws)
+            kwvals = []
+            for kw in kws:
+                val = rng.choice(["he", "ru", "x", ""]) if kw == "lang" else rng.choice(["2", "b7", ""])
+                kv[kw] = val         # a later duplicate keyword overwrites an earlier one
+                kwvals.append(val)
+            if kws:
+                k += ";" + ",".join(kws)
+            # reference: what the URL and the observations are supposed to be
+            us = [tpl_inst(e["tpl"], params, kv)]
+            for m in reversed(e["chain"]):
+                us.insert(0, tpl_inst(m["tpl"], [us[0]], kv))
+            events = []
+            for lvl, m in enumerate(e["chain"]):
+                if m["obs"] is not None:
+                    kwv = kv.get(re.findall(r"\{([a-z]+)\}", m["tpl"])[0], "")
+                    groups = [us[lvl], kwv, us[lvl + 1]] if m["sel"] == 2 else [us[lvl], us[lvl + 1], kwv]
+                    events.append(("X", m["obs"], groups))
+            largs = list(params) + ([kv.get("lang", "")] if e["haslang"] else [])
+            if e["kind"] == "rh":
+                largs = [us[-1]] + largs
+            events.append(("R", e["hid"], largs))
+            allp = kwvals + params
+            if len(allp) > 6:
+                continue
             line = "R %s %s %d %s %s %s %d %s | %s |" % (hx("GET"), hx(root), len(helpers), " ".join(hx(a) + " " + hx(b) for a, b in helpers),
-                                                      ".".join(map(str, frm)) or "-", hx(k), len(params),
-                                                      " ".join(hx(p) for p in params), " ".join(tw))
+                                                      ".".join(map(str, frm)) or "-", hx(k), len(allp),
+                                                      " ".join(hx(p) for p in allp), " ".join(tw))
             line = " ".join(line.split())
             out.append(line)
-            expect[line] = (hid, want, kind)
+            expect[line] = (events, root + us[0])
 
 
 def names_on_path(tw, pos):
@@ -611,7 +673,8 @@ def main():
         cases = [rp["case"]] if "case" in rp else []
         if cases and rp.get("expect"):
             b = cases[0][:cases[0].rindex("|") + 1]
-            expect[b] = (rp["expect"][0], [bytes.fromhex(x).decode("latin-1") for x in rp["expect"][1]], rp["expect"][2])
+            expect[b] = ([(t, i, [None if x is None else bytes.fromhex(x).decode("latin-1") for x in a]) for t, i, a in rp["expect"][0]],
+                         bytes.fromhex(rp["expect"][1]).decode("latin-1"))
         corpus = []
     else:
         cases, expect = gen_cases(c, scale)
@@ -690,9 +753,19 @@ def main():
         # engine answers; where it holds the implementation must have mapped to root++u and run the key's handler with the parameters
         ridx = [k for k, cs in enumerate(full) if cs in exp_full and k < len(out_i)]
         rlines = []
+        nurl = 0
         for k in ridx:
-            hid, params, kind = exp_full[full[k]]
-            rlines.append("JR %d %s %d %s %s # %s" % (hid, "rh" if kind == "rh" else "plain", len(params), " ".join(hx(x) for x in params), full[k], out_i[k]))
+            events, url = exp_full[full[k]]
+            # (a) spec-level, no model involved: the mapper must produce the registered templates instantiated with the SUPPLIED
+            #     values - positional parameters, keyword parameters (also where an ANCESTOR's mount template consumes them), helpers
+            got = out_i[k].split()[0] if out_i[k].split() else ""
+            nurl += 1
+            if got != "ok:" + hx(url):
+                bad.append((k, "url_mapper::map did not produce the templates instantiated with the supplied parameters "
+                               "(expected %r)" % url))
+            ev = " ".join("%s %d %d %s" % (t, i, len(a), " ".join("~" if x is None else hx(x) for x in a)) for t, i, a in events)
+            rlines.append("JR %d %s %s # %s" % (len(events), " ".join(ev.split()), full[k], out_i[k]))
+        c.extra_cov["mapped_urls_checked_against_reference"] = nurl
         rcr, rout, rerr = c.run_lines(model, rlines) if rlines else (0, [], "")
         if rcr != 0 or len(rout) != len(ridx):
             c.broke("judge run (Consistent)", rerr)
@@ -701,20 +774,23 @@ def main():
             if o == "1 c":
                 ncons += 1
             elif o != "1 n":
-                bad.append((k, "site is Consistent but the URL produced by the mapper is not routed to the handler of its key with the same parameters"))
+                bad.append((k, "site is Consistent but routing the mapped URL from the root did not deliver the supplied values "
+                               "(handler parameters / groups of the ancestors' patterns)"))
         c.extra_cov["roundtrip_cases"] = len(ridx)
         c.extra_cov["roundtrip_cases_consistent_and_confirmed"] = ncons
         c.extra_cov["judged_impl_outputs"] = len(jidx)
         if crashed:
             c.violation("sanitizer abort / crash / exception out of the real code", {"case": crashed["case"], "stderr": crashed["stderr"]})
-        bad.sort(key=lambda t: (t[0] >= len(corpus), len(full[t[0]])))   # corpus witnesses first, then the shortest
+        # corpus witnesses first, then the shortest case; for one case the most specific reason first
+        bad.sort(key=lambda t: (t[0] >= len(corpus), len(full[t[0]]), t[0], 0 if "url_mapper" in t[1] else 1 if "Consistent" in t[1] else 2))
         for k, why in bad[:20]:
             src = corpus[k][0] if k < len(corpus) else "generated"
             v = {"case": full[k], "source": src, "impl_output": out_i[k], "model_output": out_m[k] if k < len(out_m) else None,
                  "replay_cmd": "bin/check C20 --replay <this file>"}
             if full[k] in exp_full:
                 e = exp_full[full[k]]
-                v["expect"] = [e[0], [x.encode("latin-1").hex() for x in e[1]], e[2]]
+                v["expect"] = [[[t, i, [None if x is None else x.encode("latin-1").hex() for x in a]] for t, i, a in e[0]],
+                               e[1].encode("latin-1").hex()]
             c.violation(why, v)
         if diffs and not bad and not crashed:
             k, cs, a, b = diffs[0]
